@@ -226,6 +226,13 @@ var properties = map[string]*Property{
 			Files:    []string{"zz_verif_c18_test.go"},
 			Quick:    Tier{Runs: 3000, BudgetS: 100},
 			Thorough: Tier{Runs: 150000, BudgetS: 1200},
+		}, {
+			Name: "provider-blob", Property: "C18", Pkg: "./internal/rules/provider/cloudblob", Test: "TestVerifC18Blob",
+			Dirs:     []string{"internal/rules/provider/cloudblob"},
+			Files:    []string{"zz_verif_c18_test.go"},
+			CPU1:     true,
+			Quick:    Tier{Runs: 2000, BudgetS: 100},
+			Thorough: Tier{Runs: 100000, BudgetS: 1200},
 		}},
 		Rule: "TODO",
 		Real: []string{"TODO"},
